@@ -11,7 +11,7 @@ struct Cksum;
 
 impl Family for Cksum {
     fn gen(rng: &mut Rng, idx: usize) -> String {
-        common::gen_case(rng, idx, &common::Mix { big: 25, cksum_heavy: true })
+        common::gen_case(rng, idx, &common::Mix { big: 10, cksum_heavy: true })
     }
     fn run(case: &str) -> Outcome {
         common::run_case(case)
